@@ -25,8 +25,21 @@ type c04Case struct {
 var c04Delims = []string{"", "=", "&", ":", ";", ",", ", ", "|", " ", "\t", "\x00", "/", "==", "&&", "%00", "\\", "\"", "'", "-", "_", "."}
 
 // crafted families: name/value boundary shifts between X-A and X-B
+// serialisation-style delimiter pairs (between name and value, between pairs)
+var c04KV = []string{"", "=", ":", ": ", "|", "\t"}
+var c04Pair = []string{"", "&", ";", ",", ", ", "|", " ", "\n"}
+
 func c04Family(r *rand.Rand) []map[string][]string {
 	d1, d2, d3 := pick(r, c04Delims), pick(r, c04Delims), pick(r, c04Delims)
+	if chance(r, 0.6) {
+		// "1<pair>X-B<kv>2" is what a naive name/value serialisation of {X-A:1, X-B:2} looks like
+		d2 = pick(r, c04KV)
+		d1 = pick(r, c04Pair)
+		d3 = d1
+		if d1 == "\n" {
+			d1, d3 = "&", "&"
+		}
+	}
 	if d1 == "\x00" || d2 == "\x00" || d3 == "\x00" {
 		d1, d2, d3 = "=", "&", "=" // NUL cannot be sent in a field value
 	}
@@ -79,6 +92,26 @@ func genC04(r *rand.Rand) c04Case {
 		c.VaryAt = append(c.VaryAt, cur)
 	}
 	n := 10 + r.IntN(16)
+	if len(c.Combos) == 10 && chance(r, 0.6) {
+		// scripted opening for the crafted families: two variants that a sloppy
+		// variant key could confuse are stored under a narrow Vary, the origin
+		// widens Vary, one of them is reloaded (stored through the revalidation
+		// path), then both are requested again
+		a, b := 0, 1+r.IntN(5)
+		if chance(r, 0.5) {
+			a, b = b, a
+		}
+		narrow, wide := []string{"X-A"}, []string{"X-A, X-B"}
+		if chance(r, 0.3) {
+			narrow, wide = wide, narrow
+		}
+		c.VaryAt = [][]string{narrow, narrow}
+		for k := 0; k < 38; k++ {
+			c.VaryAt = append(c.VaryAt, wide)
+		}
+		c.Steps = append(c.Steps, c04Step{Combo: a}, c04Step{Combo: b}, c04Step{Combo: b, ReqCC: pick(r, []string{"no-cache", "max-age=0"})},
+			c04Step{Combo: a}, c04Step{Combo: b}, c04Step{Combo: a, ReqCC: "no-cache"}, c04Step{Combo: b}, c04Step{Combo: a})
+	}
 	for i := 0; i < n; i++ {
 		st := c04Step{Combo: r.IntN(len(c.Combos))}
 		if chance(r, 0.2) {
